@@ -2,6 +2,20 @@
 import math
 
 
+def _carrier(xs, ys, zs):
+    """how the caller wrote the coordinates: a third of the tracks (chosen from the data, reproducibly) hand every coordinate
+    that is a whole number over as a Python int (ENUCoords(3, 4, 0)), the others as floats - the values are the same"""
+    try:
+        return (len(xs) + int(sum(abs(v) for v in list(xs) + list(ys) + list(zs)) * 4)) % 3 == 2
+    except Exception:
+        return False
+
+
+def _num(v, as_int):
+    f = float(v)
+    return int(f) if as_int and f == int(f) and abs(f) < 2 ** 53 else f
+
+
 def mk_track(xs, ys=None, zs=None, ts=None, day=(2020, 6, 15)):
     """ENU track; ts = seconds after <day> 12:00:00 (may be fractional ms-exact)."""
     from tracklib.core.track import Track
@@ -14,8 +28,9 @@ def mk_track(xs, ys=None, zs=None, ts=None, day=(2020, 6, 15)):
     ts = ts if ts is not None else list(range(n))
     base = ObsTime(day[0], day[1], day[2], 12, 0, 0).toAbsTime()
     obs = []
+    ci = _carrier(xs, ys, zs)
     for i in range(n):
-        obs.append(Obs(ENUCoords(float(xs[i]), float(ys[i]), float(zs[i])), ObsTime.readUnixTime(base + ts[i])))
+        obs.append(Obs(ENUCoords(_num(xs[i], ci), _num(ys[i], ci), _num(zs[i], ci)), ObsTime.readUnixTime(base + ts[i])))
     return Track(obs)
 
 
@@ -26,12 +41,13 @@ def mk_track_ms(xs, ys, zs, ts_ms, day=(2020, 6, 15)):
     from tracklib.core.obs_coords import ENUCoords
     from tracklib.core.obs_time import ObsTime
     obs = []
+    ci = _carrier(xs, ys, zs)
     for i in range(len(xs)):
         ms = int(ts_ms[i])
         s, ms = divmod(ms, 1000)
         m, s = divmod(s, 60)
         h, m = divmod(m, 60)
-        obs.append(Obs(ENUCoords(float(xs[i]), float(ys[i]), float(zs[i])), ObsTime(day[0], day[1], day[2], 12 + h, m, s, ms)))
+        obs.append(Obs(ENUCoords(_num(xs[i], ci), _num(ys[i], ci), _num(zs[i], ci)), ObsTime(day[0], day[1], day[2], 12 + h, m, s, ms)))
     return Track(obs)
 
 
